@@ -8,6 +8,7 @@ Local Open Scope Z_scope.
 Ltac csimpl := cbn [c_n c_locked c_nw c_tries c_kill c_w c_wstamp c_r c_lock c_lstamp c_crem c_hN c_hC c_body
   c_ver c_gver c_wdone c_committed c_unread c_delivered c_uncov c_overlap c_rd c_wr
   set_rd set_wr set_wcur set_rcur set_lock set_crem set_wdone set_data set_ghost
+  set_rc c_repoch c_rver c_rstamp c_lrstamp c_wrseen c_rrace
   r_pc r_done r_seen w_pc w_script w_tries w_pend w_seen w_ev wset wset_pend wset_seen w_next_msg fst snd] in *.
 
 Definition mline (m : Z * Z * Z) : Z := fst (fst m).
@@ -1131,6 +1132,13 @@ Qed.
 Lemma kill_inv n s t r : CInv n (fst r) -> CInv n (fst (kill_check s t r)).
 Proof.
   intros I. unfold kill_check. destruct r as [s1 [e| |]]; auto. simpl in I.
+  destruct (negb (Nat.eqb t 1) && is_atomic (e_op e) && proc_dead s) eqn:D.
+  { (* the writer process has died: this thread stops here as well *)
+    apply andb_prop in D as [D _]. apply andb_prop in D as [D _]. apply negb_true_iff in D. apply Nat.eqb_neq in D.
+    cbn [fst]. apply inv_set_wdone. apply inv_local; auto; csimpl.
+    - apply (g_seen n s1 I).
+    - intros L T1. contradiction.
+    - apply (g_script n s1 I). }
   destruct (Nat.eqb t 1 && is_atomic (e_op e)); auto.
   assert (I1 : CInv n (set_wr s1 t
             {| w_pc := w_pc (c_wr s1 t); w_script := w_script (c_wr s1 t); w_tries := w_tries (c_wr s1 t);
@@ -1150,11 +1158,13 @@ Lemma mo_split P : mo_sufficient P = true ->
 Proof.
   unfold mo_sufficient. intros H. repeat (apply andb_prop in H; destruct H as [H ?]). auto.
 Qed.
+Lemma mo_split_r P : mo_sufficient P = true -> is_rel (mo_r_store_move P) = true.
+Proof. unfold mo_sufficient. intros H. apply andb_prop in H. tauto. Qed.
 
-Lemma cstep_inv P n s t ch s' l : 1 <= n < 2147483648 -> mo_sufficient P = true ->
-  CInv n s -> cstep P s t ch = Some (s', l) -> CInv n s'.
+Lemma cstep0_inv P n s t ch s' l : 1 <= n < 2147483648 -> mo_sufficient P = true ->
+  CInv n s -> cstep0 P s t ch = Some (s', l) -> CInv n s'.
 Proof.
-  intros Hn Hmo I H. destruct (mo_split P Hmo) as (Mw & Mc & Ma & Mt & Ml). unfold cstep in H.
+  intros Hn Hmo I H. destruct (mo_split P Hmo) as (Mw & Mc & Ma & Mt & Ml). unfold cstep0 in H.
   destruct (Nat.eqb t 0).
   - apply (rstep_inv P n s s' l Hn Ma I H).
   - destruct (Nat.leb t (c_nw s) && (c_locked s || Nat.eqb t 1)) eqn:C; [|discriminate].
@@ -1165,6 +1175,27 @@ Proof.
     pose proof (wstep_inv P n s t s1 l1 Hn Mw Mc Mt Ml I Hlt W) as I1.
     pose proof (kill_inv n s t (s1, l1) I1) as I2.
     destruct (kill_check s t (s1, l1)) as [s2 l2]. inversion H; subst. exact I2.
+Qed.
+
+(* the read-coverage layer (ghost fields only) keeps the invariant of the base layer *)
+Lemma inv_set_rc n s ep rver rst lrst wrs race : CInv n s -> CInv n (set_rc s ep rver rst lrst wrs race).
+Proof. intros []. constructor; auto. Qed.
+
+Lemma ghost_r_inv P n s s' : CInv n s' -> CInv n (ghost_r P s s').
+Proof.
+  intros I. unfold ghost_r, rc_read, rc_publish.
+  destruct (r_pc (c_rd s)); repeat match goal with |- context [if ?b then _ else _] => destruct b end;
+    try exact I; apply inv_set_rc; exact I.
+Qed.
+Lemma ghost_w_inv P n s t s' : CInv n s' -> CInv n (ghost_w P s t s').
+Proof. intros I. unfold ghost_w. destruct (w_pc (c_wr s t)); apply inv_set_rc; exact I. Qed.
+
+Lemma cstep_inv P n s t ch s' l : 1 <= n < 2147483648 -> mo_sufficient P = true ->
+  CInv n s -> cstep P s t ch = Some (s', l) -> CInv n s'.
+Proof.
+  intros Hn Hmo I H. unfold cstep in H. destruct (cstep0 P s t ch) as [[s1 l1]|] eqn:E; [|discriminate].
+  pose proof (cstep0_inv P n s t ch s1 l1 Hn Hmo I E) as I1. inversion H; subst.
+  destruct (Nat.eqb t 0); [apply ghost_r_inv|apply ghost_w_inv]; exact I1.
 Qed.
 
 (* ---- the theorems ---- *)
